@@ -1,15 +1,162 @@
-"""Kani / native bounded jobs (secondary engines)."""
+"""Secondary engine: native checks of the *real* functions in a scratch copy of /repo.
 
+A native job is a `#[cfg(test)]` module (native/<file>.rs) appended to one real source file of a
+scratch copy, so that it can reach private items; the file under test is byte-identical to /repo's
+up to the appended module. Two classes:
+
+  proof    the harness enumerates a FINITE domain completely (e.g. every strum discriminant of an
+           error enum): a complete decision for that obligation
+  bounded  exhaustive enumeration inside a stated size bound: a stand-in, never counted as proved
+
+All harness modules of a crate are always appended together (whatever property is being checked), so
+the scratch source -- and with it cargo's build cache under /verif/.cache -- only changes when /repo does.
+"""
+import fcntl
+import json
+import os
+import re
+import shutil
+import subprocess
+import time
+
+HERE = os.path.dirname(os.path.dirname(os.path.abspath(__file__)))
+REPO = os.environ.get('VERIF_REPO', '/repo')
+NATIVE_ROOT = '/var/tmp/aquavm-verif-native'
+CACHE = os.path.join(HERE, '.cache')
+
+# id, properties, class, bound, crate, file the module is appended to, harness file, test function
 JOBS = []
 
 
+def native(id, props, cls, bound, crate, target, harness, test, tier='quick', what=''):
+    JOBS.append(dict(id=id, props=props, engine='native', cls=cls, bound=bound, crate=crate, target_file=target,
+                     harness=harness, test=test, tier=tier, what=what, run=run_native))
+
+
 def all_jobs():
+    _load()
     return JOBS
 
 
 def jobs_for(prop, tier):
+    _load()
     return [j for j in JOBS if prop in j['props'] and (tier == 'thorough' or j.get('tier', 'quick') == 'quick')]
 
 
 def run_job(job, wd, tier, seed, replay_input=None):
     return job['run'](job, wd, tier, seed, replay_input)
+
+
+_loaded = [False]
+
+
+def _load():
+    if _loaded[0]:
+        return
+    _loaded[0] = True
+    import native_jobs  # noqa: F401  (registers through native())
+
+
+# ------------------------------------------------------------------ native batch
+_batch = {}
+
+
+def _prepare_scratch():
+    """rsync /repo's working tree to the scratch path and append every harness module; returns src dir"""
+    src = os.path.join(NATIVE_ROOT, 'src')
+    os.makedirs(NATIVE_ROOT, exist_ok=True)
+    subprocess.run(['rsync', '-a', '--delete', '--exclude', '/target', '--exclude', '.git', REPO + '/', src + '/'],
+                   check=True)
+    by_file = {}
+    for j in all_jobs():
+        if j['engine'] == 'native':
+            by_file.setdefault(j['target_file'], [])
+            if j['harness'] not in by_file[j['target_file']]:
+                by_file[j['target_file']].append(j['harness'])
+    for target, harnesses in by_file.items():
+        p = os.path.join(src, target)
+        with open(p) as f:
+            text = f.read()
+        for h in harnesses:
+            with open(os.path.join(HERE, 'native', h)) as f:
+                text += '\n' + f.read()
+        # keep the mtime of the original when nothing but our stable suffix is added: cargo fingerprints by mtime,
+        # so write only if the content differs from what is already there
+        tmp = p + '.verif'
+        with open(tmp, 'w') as f:
+            f.write(text)
+        st = os.stat(os.path.join(REPO, target))
+        os.utime(tmp, (st.st_atime, st.st_mtime + 1))
+        os.replace(tmp, p)
+    return src
+
+
+def run_native_batch(crates, filt='verif_native', timeout=3600, build_only=False):
+    """build + run all verif_native tests of the given crates; returns {crate: (rc, output, seconds)}"""
+    os.makedirs(CACHE, exist_ok=True)
+    os.makedirs(NATIVE_ROOT, exist_ok=True)
+    out = {}
+    with open(os.path.join(NATIVE_ROOT, 'lock'), 'w') as lock:
+        fcntl.flock(lock, fcntl.LOCK_EX)
+        try:
+            src = _prepare_scratch()
+            env = dict(os.environ, CARGO_TARGET_DIR=os.path.join(CACHE, 'native-target'), CARGO_NET_OFFLINE='true',
+                       RUSTFLAGS=os.environ.get('RUSTFLAGS', ''))
+            for crate in crates:
+                t0 = time.time()
+                cmd = ['cargo', 'test', '-p', crate, '--lib', '--offline']
+                if build_only:
+                    cmd += ['--no-run']
+                else:
+                    cmd += [filt, '--', '--nocapture', '--test-threads', '8']
+                try:
+                    p = subprocess.run(cmd, cwd=src, env=env, stdout=subprocess.PIPE, stderr=subprocess.STDOUT, text=True,
+                                       timeout=timeout)
+                    out[crate] = (p.returncode, p.stdout, time.time() - t0, ' '.join(cmd))
+                except subprocess.TimeoutExpired as e:
+                    o = e.stdout.decode(errors='replace') if isinstance(e.stdout, bytes) else (e.stdout or '')
+                    out[crate] = (-9, o, time.time() - t0, ' '.join(cmd))
+        finally:
+            shutil.rmtree(os.path.join(NATIVE_ROOT, 'src'), ignore_errors=True)
+            fcntl.flock(lock, fcntl.LOCK_UN)
+    return out
+
+
+def _crate_result(crate):
+    key = (crate, os.getpid())
+    if key not in _batch:
+        _batch[key] = run_native_batch([crate])[crate]
+    return _batch[key]
+
+
+_crate_locks = {}
+
+
+def run_native(job, wd, tier, seed, replay_input=None):
+    import threading
+    lk = _crate_locks.setdefault(job['crate'], threading.Lock())
+    with lk:
+        rc, output, secs, cmd = _crate_result(job['crate'])
+    res = dict(id=job['id'], engine='native (cargo test on a scratch copy of the real crate)', cls=job['cls'], bound=job['bound'],
+               target=job['target_file'] + ' + native/' + job['harness'] + ' :: ' + job['test'], seconds=secs, cmd=cmd,
+               trusted=['native job %s: rustc/cargo of the repository toolchain; harness native/%s' % (job['id'], job['harness'])])
+    test_line = re.search(r'^test .*%s ... (\w+)' % re.escape(job['test']), output, re.M)
+    cases = re.search(r'VERIF-JOB %s CASES (\d+)' % re.escape(job['id']), output)
+    fail = re.search(r'VERIF-JOB %s FAIL (.*)' % re.escape(job['id']), output)
+    if rc == -9:
+        res.update(status='undecided', detail='native run timed out')
+    elif test_line is None:
+        tail = '\n'.join(output.strip().split('\n')[-25:])
+        res.update(status='undecided', detail='test %s did not run (build error in the appended module or lost anchor):\n%s' % (job['test'], tail))
+    elif test_line.group(1) == 'ok':
+        if not cases or int(cases.group(1)) == 0:
+            res.update(status='undecided', detail='harness reported no cases (vacuous)')
+        else:
+            res.update(status='discharged', checked=int(cases.group(1)), detail='%s cases' % cases.group(1))
+    else:
+        inp = fail.group(1).strip() if fail else None
+        # the panic message of the failing test
+        m = re.search(r"---- .*%s stdout ----\n(.*?)(?=\n---- |\nfailures:)" % re.escape(job['test']), output, re.S)
+        res.update(status='failed', input=inp, site=(inp or '')[:200],
+                   detail='native harness %s failed%s\n%s' % (job['test'], (' on input ' + inp) if inp else '', (m.group(1) if m else '')[-1500:]))
+    return res
